@@ -66,7 +66,22 @@ __CPROVER_ensures(RV >= 0 && RV <= CPU_SETSIZE)
 __CPROVER_assigns()
 #include "CpuSet_count.body.inc"
 
+/* ---- parseIntClamped (CPU-list parsing, numeric token): strtol is an axiom stub returning an arbitrary long and an end pointer ---- */
+long g_strtol_value; bool g_strtol_nodigits;
+long G_strtol(const char* s, char** endp, int base)
+__CPROVER_requires(base == 10)
+__CPROVER_assigns(*endp)
+__CPROVER_ensures(RV == g_strtol_value && (g_strtol_nodigits ? (*endp == s) : (*endp != s)))
+;
+#define kMaxReasonableCpuId ((long)KMAXCPU)
+int32_t parseIntClamped(const char* s)
+/* the token denotes the id strtol read; anything that is not a number in [0, kMaxReasonableCpuId] yields -1 (no id) */
+__CPROVER_ensures(RV == ((!g_strtol_nodigits && g_strtol_value >= 0 && g_strtol_value <= kMaxReasonableCpuId) ? (int32_t)g_strtol_value : -1))
+__CPROVER_assigns()
+#include "parseIntClamped.body.inc"
+
 #ifdef VERIF_CBMC
+void h_parseIntClamped(void) { char buf[4]; long v; _Bool nd; g_strtol_value = v; g_strtol_nodigits = nd; parseIntClamped(buf); }
 #define H(name, call) void h_##name(void) { CpuSet s; int32_t a, b, k; g_k = k; g_old_member = MEMBER(&s, k); call; }
 H(CpuSet_clear, CpuSet_clear(&s))
 H(CpuSet_add, CpuSet_add(&s, a))
